@@ -266,7 +266,28 @@ def chk_linear(inp):
     return None
 
 
-CHECKS = {'phase': chk_phase, 'uversky': chk_uversky, 'multi': chk_multi, 'linear': chk_linear}
+def chk_region_polys(N):
+    """every composition of length N: the region the classifier reports is the drawn polygon its (f+, f-) point lies in (polygons read
+    back from ONE drawn diagram; they do not depend on the sequence)"""
+    o0 = sp('G' * N)
+    r, s = capture(o0.show_phaseDiagramPlot, '', 'Diagram of states', True, 1, 1, 10, True)
+    polys = s['polys']
+    if len(polys) != 5:
+        return '%d region polygons drawn' % len(polys)
+    for p, n, z in compositions(N):
+        seq = seq_of_composition(p, n, z, None)
+        o = sp(seq)
+        fp, fn = quiet(o.get_fraction_positive), quiet(o.get_fraction_negative)
+        reg = quiet(o.get_phasePlotRegion)
+        if not inside(polys[reg - 1], fp, fn):
+            return 'composition (n+,n-,N)=(%d,%d,%d) is classified in region %d but its point (%r,%r) lies outside the polygon drawn for that region' % (p, n, N, reg, fp, fn)
+        others = [k + 1 for k in range(5) if k != reg - 1 and strictly_inside(polys[k], fp, fn)]
+        if others:
+            return 'composition (n+,n-,N)=(%d,%d,%d) (region %d) lies strictly inside the polygon drawn for region %s' % (p, n, N, reg, others)
+    return None
+
+
+CHECKS = {'phase': chk_phase, 'uversky': chk_uversky, 'multi': chk_multi, 'linear': chk_linear, 'region_polys': chk_region_polys}
 
 
 def work_regions(Ns, seed):
@@ -276,6 +297,12 @@ def work_regions(Ns, seed):
         for p, n, z in compositions(N):
             inps.append((seq_of_composition(p, n, z, None), '', 'Diagram of states', 1, 1, 'obj_show_fig'))
     run_checks(r, 'phase', chk_phase, inps)
+    return r
+
+
+def work_polys(Ns):
+    r = Result(PROP)
+    run_checks(r, 'region_polys', chk_region_polys, Ns)
     return r
 
 
@@ -311,7 +338,10 @@ def tasks(tier, seed):
     k = 16
     Ns = list(range(1, nmax + 1)) + ([20, 40] if tier == 'quick' else [40, 60, 100])
     t = [('native.c19', 'work_regions', (Ns[i::k], seed)) for i in range(k) if Ns[i::k]]
+    pmax = 60 if tier == 'quick' else 150
+    PN = list(range(nmax + 1, pmax + 1))
+    t += [('native.c19', 'work_polys', (PN[i::k],)) for i in range(k) if PN[i::k]]
     kk = 8 if tier == 'quick' else 32
     t += [('native.c19', 'work', (seed * 73 + i, 3)) for i in range(kk)]
-    return t, dict(region_agreement_every_composition_up_to=nmax, extra_N=Ns[nmax:], entry_point_argument_combinations=kk * 3 * 22,
+    return t, dict(region_agreement_every_composition_up_to=nmax, region_vs_drawn_polygons_every_composition_up_to=pmax, extra_N=Ns[nmax:], entry_point_argument_combinations=kk * 3 * 22,
                    backend='matplotlib Agg; artists read back at show/savefig/return time')
